@@ -18,6 +18,7 @@
 #include <sys/wait.h>
 #include <unistd.h>
 #include <unordered_set>
+#include <thread>
 
 #ifndef VK_NO_RAPIDCHECK
 #include <rapidcheck.h>
@@ -171,11 +172,17 @@ struct Ctx
             if (ftruncate(trace_fd, 0) == 0) { (void)!pwrite(trace_fd, line.data(), line.size(), 0); }
         }
         Out o;
-        try {
-            sub->check(c, o);
-        } catch (const std::exception& e) {
-            o.fail("unexpected-exception", std::string("exception escaped the predicate: ") + e.what());
-        }
+        auto body = [&]() {
+            try {
+                sub->check(c, o);
+            } catch (const std::exception& e) {
+                o.fail("unexpected-exception", std::string("exception escaped the predicate: ") + e.what());
+            }
+        };
+        // fresh_thread: every case starts from pristine thread_local library state (plan caches, RNG engine, memoised
+        // plans ...), so a case is a pure function of its JSON and a shrunk failure replays in a new process.
+        if (fresh_thread) { std::thread t(body); t.join(); }
+        else body();
         return o;
     }
 
@@ -259,7 +266,10 @@ struct Ctx
     }
 #endif
     int harness_errors{0};
+    bool fresh_thread{false};
 };
+inline bool& fresh_thread_default() { static bool v = false; return v; }
+struct FreshThreadOn { FreshThreadOn() { fresh_thread_default() = true; } };
 
 #ifndef VK_NO_RAPIDCHECK
 // generator helpers (size-independent ranges, shrink towards lo)
@@ -495,6 +505,7 @@ inline void write_file(const std::string& path, const std::string& data) {
 inline int harness_main(const char* property, int argc, char** argv) {
     Ctx ctx;
     ctx.property = property;
+    ctx.fresh_thread = fresh_thread_default();
     std::string out_path, replay_path, only, trace_path;
     for (int i = 1; i < argc; ++i) {
         std::string a = argv[i];
@@ -588,6 +599,9 @@ inline int harness_main(const char* property, int argc, char** argv) {
     static void ident##_check(const vk::Json& c, vk::Out& o); \
     static void ident##_gen(vk::Ctx& ctx); \
     static vk::Reg ident##_reg(name, ident##_check, ident##_gen)
+
+// every case of this harness runs in a fresh std::thread (pristine thread_local library state)
+#define VK_FRESH_THREADS static vk::FreshThreadOn vk_fresh_thread_on
 
 #define VK_MAIN(property) \
     int main(int argc, char** argv) { return vk::harness_main(property, argc, argv); }
